@@ -64,6 +64,7 @@ struct SocketTlsImpl final : public SocketImpl
 
   void DriverQuery(short &events) override;
   void DriverPending() override;
+  bool DriverReceivePending() const override;
 
   void Shutdown();
   size_t Read(char *data,
